@@ -24,7 +24,12 @@ RULE = ("Base58: every payload length 0..82 with every leading-zero run class (n
         "first-character class, hash and program lengths around 20/32 per witness version, WIF payload lengths "
         "0..65, last byte other than 01, foreign prefix bytes, secrets 0 / N / N+1 / 2^256-1), unknown networks and "
         "out-of-range secrets at the encoders, scriptPubKeys read from the middle of a stream with the length in every "
-        "compact-size form, P2TR from a curve point, non-bytes constructor arguments.")
+        "compact-size form, P2TR from a curve point, non-bytes constructor arguments; characters outside the alphabet "
+        "COMPENSATED so that a lenient digit lookup (str.find = -1, default 0, alphabet length, clamped, ord arithmetic, "
+        "look-alike and case folding, ignored) would decode a valid payload with a matching checksum: base58 payloads of "
+        "10 lengths x 3 leading-zero classes, P2PKH/P2SH addresses x 4 networks, WIF x 4, xprv/xpub x 2 networks (also "
+        "through HDPrivateKey.parse / HDPublicKey.parse), segwit addresses (foreign character at the version symbol / "
+        "in the program, checksum recomputed under the reading; upper-case and look-alike substitutions anywhere), bc32.")
 TRUSTED = ["hashlib (sha256) — hash256 is a universally quantified function with 32-byte output in the theorems",
            "text is modelled as a list of code points; harness inputs are latin-1 strings (one code point per byte)",
            "PrivateKey.__init__ computes secret*G, which is not modelled (only its range check is)"]
@@ -950,7 +955,220 @@ def p_history(ops):
     return None
 
 
+# ---------------------------------------------------------------- lenient digit decoding: characters outside the alphabet
+# A digit loop that looks a character up WITHOUT rejecting the ones it does not find (str.find -> -1, dict.get(c, 0), a
+# table padded with the alphabet length, ord() arithmetic, case folding, look-alike mapping, skipping blanks) changes
+# nothing for texts over the alphabet, and a foreign character put into a valid text at random still fails the
+# checksum.  What such a loop accepts are texts in which the foreign character is COMPENSATED by the characters around
+# it (base 58: "Az" = a*58+57 = (a+1)*58-1 = "B0" when '0' counts as -1; bech32: the checksum recomputed with the value
+# the loop gives to the character).  The functions below are independent models of that family - reading(c) is the
+# value a lenient loop gives to a character outside the alphabet, None when it skips it - used only to CONSTRUCT
+# texts and to make sure that a lenient decoder really would accept them; the expectation is always: rejected.
+
+NA = "n/a"          # this reading gives the character no value: no text to build
+
+
+def lenient_b58(s, reading):
+    """bytes (payload + checksum) that a base58 digit loop with this reading computes, None if it cannot"""
+    num = z = 0
+    for c in s:
+        if num == 0 and c == "1":
+            z += 1
+            continue
+        if c in B58:
+            v = B58.index(c)
+        else:
+            v = reading(c)
+            if v is None:
+                continue
+            if v == NA:
+                return None
+        num = 58 * num + v
+    if num < 0:
+        return None
+    return b"\x00" * z + num.to_bytes((num.bit_length() + 7) // 8, "big")
+
+
+def _digits58(n, width=0):
+    out = ""
+    while n:
+        n, d = divmod(n, 58)
+        out = B58[d] + out
+    return out.rjust(width, "1")
+
+
+def b58_forgeries(s, c, reading, r, want=2):
+    """texts containing the foreign character c that have, under the reading, the bytes of the valid text s"""
+    raw = ref_b58dec(s)
+    v = reading(c)
+    if v == NA:
+        return []
+    z = len(s) - len(s.lstrip("1"))
+    body = s[z:]
+    n = len(body)
+    cand = []
+    if v is None:                      # skipped: put it anywhere
+        spots = {0, z, len(s), z // 2, r.randrange(len(s) + 1), r.randrange(len(s) + 1)}
+        for p in sorted(spots):
+            cand.append(s[:p] + c * r.choice([1, 1, 2]) + s[p:])
+    else:
+        val = 0
+        for ch in body:
+            val = val * 58 + B58.index(ch)
+        pw = 1
+        for k in range(n):             # k: power of 58 of the position taken by the foreign character
+            w = val - v * pw
+            if w >= 0:
+                high, low = divmod(w, pw * 58)
+                if low < pw:           # digit k of w is 0: the foreign character can stand there
+                    cand.append("1" * z + _digits58(high) + c + _digits58(low, k))
+            pw *= 58
+    good = [t for t in cand if t != s and any(x not in B58 for x in t) and lenient_b58(t, reading) == raw]
+    if len(good) > want:               # lowest position, highest position, then random ones
+        good = [good[0], good[-1]] + r.sample(good[1:-1], want - 2) if want >= 2 else [r.choice(good)]
+    return good[:want]
+
+
+def lenient_segdec(s, reading):
+    """ref_segdec with a lenient symbol lookup (and the arithmetic of a decoder that never looks at the symbols again)"""
+    for hrp in ("bcrt", "bc", "tb"):
+        if s.startswith(hrp + "1"):
+            d = s[len(hrp) + 1:]
+            break
+    else:
+        return None
+    data = []
+    for c in d:
+        v = B32.index(c) if c in B32 else reading(c)
+        if v == NA:
+            return None
+        if v is not None:
+            data.append(v)
+    if len(data) < 7 or ref_polymod(ref_hrp(hrp) + data) != (1 if data[0] == 0 else 0x2bc830a3):
+        return None
+    body = data[1:-6]
+    pad = 5 * len(body) % 8
+    val = 0
+    for x in body:
+        val = val * 32 + x
+    nbytes = 5 * len(body) // 8
+    if pad > 4 or val & ((1 << pad) - 1) or not 2 <= nbytes <= 40 or not 0 <= val >> pad < 256 ** nbytes:
+        return None
+    return [SEG_NET[hrp], data[0], (val >> pad).to_bytes(nbytes, "big")]
+
+
+def seg_forgery(hrp, ver, prog, p, c, reading):
+    """the address text of (ver, prog) with the data symbol at p replaced by the foreign character c and the checksum
+    recomputed with the value the reading gives to c; None unless a lenient decoder accepts it"""
+    v = reading(c)
+    if v == NA:
+        return None
+    data = [ver] + ref_conv(prog, 8, 5, True)
+    p %= len(data)
+    if v is None:
+        vals, chars = list(data), [B32[x] for x in data]
+        chars.insert(p, c)
+    else:
+        vals = data[:p] + [v] + data[p + 1:]
+        chars = [B32[x] for x in data]
+        chars[p] = c
+    const = 1 if vals[0] == 0 else 0x2bc830a3
+    pm = ref_polymod(ref_hrp(hrp) + vals + [0] * 6) ^ const
+    t = hrp + "1" + "".join(chars) + "".join(B32[(pm >> 5 * (5 - i)) & 31] for i in range(6))
+    return t if lenient_segdec(t, reading) is not None else None
+
+
+def ref_bc32(data):
+    dd = ref_conv(data, 8, 5, True)
+    pm = ref_polymod([0] + dd + [0] * 6) ^ 0x3fffffff
+    return "".join(B32[x] for x in dd + [(pm >> 5 * (5 - i)) & 31 for i in range(6)])
+
+
+def bc32_forgery(data, p, c, reading):
+    v = reading(c)
+    if v == NA:
+        return None
+    dd = ref_conv(data, 8, 5, True)
+    p %= len(dd)
+    chars = [B32[x] for x in dd]
+    if v is None:
+        vals = list(dd)
+        chars.insert(p, c)
+    else:
+        vals = dd[:p] + [v] + dd[p + 1:]
+        chars[p] = c
+    pm = ref_polymod([0] + vals + [0] * 6) ^ 0x3fffffff
+    return "".join(chars) + "".join(B32[(pm >> 5 * (5 - i)) & 31] for i in range(6))
+
+
+XVER = {(1, 1): "0488ade4", (1, 0): "04358394", (0, 1): "0488b21e", (0, 0): "043587cf"}     # (private, mainnet)
+CURVE_X = [0x79BE667EF9DCBBAC55A06295CE870B07029BFCDB2DCE28D959F2815B16F81798,               # x of G, 2G, 3G
+           0xC6047F9441ED7D6D3045406E95C07CD85C778E4B8CEF3CA7ABAC09B95C709EE5,
+           0xF9308A019258C31049344F85F89D5229B531C845836F99B08601F113BCE036F9]
+
+
+def ref_xkey_text(private, mainnet, depth, fp, child, chain, key):
+    """extended key text (BIP32 serialisation): key is a secret (private) or an index into CURVE_X (public)"""
+    k = (b"\x00" + key.to_bytes(32, "big")) if private else (b"\x02" + CURVE_X[key % 3].to_bytes(32, "big"))
+    raw = bytes.fromhex(XVER[(private, mainnet)]) + bytes([depth]) + fp + child.to_bytes(4, "big") + chain + k
+    return ref_b58enc(raw + h256(raw)[:4])
+
+
+def p_xkey_valid(sb, private):
+    """non-vacuity of the extended-key cases: the reference-built twin of the forged texts IS accepted and
+    serialises back to itself"""
+    from buidl import hd
+    s = T(sb)
+    try:
+        back = hd.HDPrivateKey.parse(s).xprv() if private else hd.HDPublicKey.parse(s).xpub()
+    except Exception as e:  # noqa
+        if _is_timeout(e):
+            raise
+        return f"the valid extended key {s!r} is rejected ({type(e).__name__}: {str(e)[:60]})"
+    return None if back == s else f"the extended key {s!r} parses but serialises to {back!r}"
+
+
+def p_foreign_rejected(sb):
+    """a text with a character outside the base58 alphabet / outside the lower-case bech32 alphabet in its data part:
+    every decoder of the property rejects it (text_iff: cleanly, per the independent decoders), and so do the
+    extended-key parsers, which read their text with the same base58 loop"""
+    from buidl import hd
+    s = T(sb)
+    d = p_text_iff(sb)
+    if d:
+        return d
+    if ref_b58dec(s) is None:
+        for name, f in (("HDPrivateKey.parse", lambda x: hd.HDPrivateKey.parse(x).xprv()),
+                        ("HDPublicKey.parse", lambda x: hd.HDPublicKey.parse(x).xpub())):
+            k, got = _outcome(f, s)
+            d = _judge(name, s, k, got, None)
+            if d:
+                return d
+    return None
+
+
+def p_bc32_foreign(data, forged):
+    """bc32 (the bech32 alphabet without a human-readable part): the reference encoding of data decodes to data, and
+    a text with a character that is not in the alphabet (whatever value a lenient lookup would give it, checksum
+    recomputed accordingly) gives None"""
+    good = ref_bc32(data)
+    if bech32.bc32decode(good) != data:
+        return f"bc32decode({good!r}) is not the encoded data"
+    s = T(forged)
+    low = s.lower() if (s.lower() == s or s.upper() == s) else s
+    if all(c in B32 for c in low) and low:
+        return None                     # not a foreign-character text after all
+    try:
+        got = bech32.bc32decode(s)
+    except Exception as e:  # noqa
+        if _is_timeout(e):
+            raise
+        return f"bc32decode({s!r}) raises {type(e).__name__} instead of returning None"
+    return None if got is None else f"bc32decode accepts {s!r}, which has a character outside the alphabet: {got!r}"
+
+
 PROPS = {"decode_encode": p_decode_encode, "parsers_only_addresses": p_parsers_only_addresses,
+         "foreign_rejected": p_foreign_rejected, "xkey_valid": p_xkey_valid, "bc32_foreign": p_bc32_foreign,
          "wif_only_wif": p_wif_only_wif, "script_entry_points": p_script_entry_points,
          "spk_bytes_rt": p_spk_bytes_rt,
          "b58_rt": p_b58_rt, "b58_accept_iff": p_b58_accept_iff, "segwit_rt": p_segwit_rt,
@@ -1466,6 +1684,182 @@ def rejecting_branch_cases(ctx):
         yield ("prop", "encode_refuses", [2, k, 0])
 
 
+def _const(v):
+    return lambda c: v
+
+
+def _table(d, alphabet):
+    return lambda c: alphabet.index(d[c]) if c in d else NA
+
+
+FOREIGN58 = list("0OIl -_+/=.,:\n\t\r\x00\x7f\x80\xa0\xe9\xff")
+IGNORABLE = list(" \t\n\r-_.,:\x00\xa0\xad")
+# (name, reading, the characters it is tried with): the value a lenient base58 digit loop gives to a foreign character
+READ58 = [("find=-1", _const(-1), FOREIGN58),
+          ("default=0", _const(0), FOREIGN58),
+          ("alphabet-length", _const(58), FOREIGN58),
+          ("clamped-to-last", _const(57), FOREIGN58),
+          ("ord-minus-ord('1')", lambda c: ord(c) - 49, FOREIGN58),
+          ("ord-mod-58", lambda c: ord(c) % 58, FOREIGN58),
+          ("look-alike", _table({"0": "o", "O": "o", "I": "1", "l": "1", "\xb9": "1", "\xb2": "2", "\xb3": "3"}, B58),
+           list("0OIl\xb9\xb2\xb3")),
+          ("case-and-shape-fold", _table({"I": "i", "l": "L", "O": "Q", "0": "D"}, B58), list("IlO0")),
+          ("ignored", _const(None), IGNORABLE)]
+FOREIGN32 = list("1bioBIOQPZL -_+/=.\n\t\x00\x7f\xa0\xe9\xff")
+READ32 = [("find=-1", _const(-1), FOREIGN32),
+          ("default=0", _const(0), FOREIGN32),
+          ("alphabet-length", _const(32), FOREIGN32),
+          ("clamped-to-last", _const(31), FOREIGN32),
+          ("ord-and-31", lambda c: ord(c) & 31, FOREIGN32),
+          ("case-fold", lambda c: B32.index(c.lower()) if c != c.lower() and c.lower() in B32 else NA,
+           [c.upper() for c in B32 if c.upper() != c]),
+          ("look-alike", _table({"1": "l", "b": "6", "i": "l", "o": "0", "B": "8", "I": "l", "O": "0"}, B32), list("1bioBIO")),
+          ("ignored", _const(None), IGNORABLE)]
+
+
+def lenient_digit_cases(ctx):
+    """constructed texts with a character outside the alphabet that a LENIENT digit lookup would decode to a valid
+    payload with a matching checksum - for every text decoder of the property and every reading of the foreign
+    character; all of them must be rejected"""
+    r = ctx.rng
+    per = ctx.n(2, 8)
+
+    def rsecret():
+        return r.randrange(1, N)
+
+    def raw_kind(n, z):
+        return lambda: ref_b58enc((lambda b: b + h256(b)[:4])((bytes(z) + ctx.rbytes(n))[:max(n, z)]))
+
+    def xkey(private, mainnet):
+        return lambda: ref_xkey_text(private, mainnet, r.randrange(1, 6), ctx.rbytes(4), r.getrandbits(32), ctx.rbytes(32),
+                                     rsecret() if private else r.randrange(3))
+
+    kinds = []          # (label, maker of a valid text, corr ops for the forged texts, prop for the valid twin)
+    for n in (0, 1, 4, 5, 20, 21, 33, 34, 78, 82):
+        for z in (0, 1, 3):
+            kinds.append(("payload", raw_kind(n, z), ("raw_decode_base58", "decode_base58"), ("text_iff",)))
+    for t in (0, 1):
+        for net in range(4):
+            kinds.append((["p2pkh", "p2sh"][t] + "-address", (lambda t=t, net=net: ref_address(t, ctx.rbytes(20), net)),
+                          ("address_to_script_pubkey", "to_address", "address_to_spk_bytes", "raw_decode_base58"), ("text_iff",)))
+    for mainnet in (1, 0):
+        for comp in (1, 0):
+            kinds.append(("wif", (lambda m=mainnet, c=comp: ref_wif_text(rsecret(), m, c)), ("wif_parse", "raw_decode_base58"),
+                          ("text_iff",)))
+        for private in (1, 0):
+            kinds.append(("xprv" if private else "xpub", xkey(private, mainnet), ("raw_decode_base58",),
+                          ("xkey_valid", private)))
+    for label, make, ops, twin in kinds:
+        twins = 0
+        for rname, reading, chars in READ58:
+            cs = r.sample(chars, len(chars))
+            found = 0
+            for attempt in range(16):
+                if found >= (3 * per if rname == "ignored" else per):
+                    break
+                s = make()
+                forged = b58_forgeries(s, cs[attempt % len(cs)], reading, r, 3 if rname == "ignored" else 2)
+                if forged and twins < (1 if label in ("xprv", "wif") else 2):
+                    twins += 1              # the valid twin is accepted (so the forged text reaches the same code)
+                    ctx.label("lenient/valid-twin")
+                    yield ("prop", twin[0], [s.encode()] + list(twin[1:]))
+                for t in forged:
+                    found += 1
+                    b = t.encode("latin-1")
+                    ctx.label("lenient/base58/reading/" + rname)
+                    ctx.label("lenient/base58/text/" + label)
+                    for op in ops:
+                        yield ("corr", op, [b])
+                    yield ("prop", "foreign_rejected", [b])
+                    yield ("prop", "b58_accept_iff", [b])
+                    yield ("prop", "decode_encode", [b])
+                    if label.endswith("address"):
+                        yield ("prop", "parsers_only_addresses", [b])
+                    if label == "wif":
+                        yield ("prop", "wif_only_wif", [b])
+            if not found:
+                ctx.label("lenient/base58/no-text-built")
+    # ---- bech32: the symbol lookup of decode_bech32 (and of both address parsers behind it)
+    shapes = [(0, 20), (0, 32), (1, 32)] + [(r.randrange(2, 17), r.randrange(2, 41)) for _ in range(2)] + [(0, 2), (16, 40)]
+    seg_ops = ("decode_bech32", "address_to_script_pubkey", "to_address")
+    for ver, ln in shapes:
+        for net in (0, 1, 3):
+            hrp = HRP[net]
+            for rname, reading, chars in READ32:
+                cs = r.sample(chars, len(chars))
+                found = 0
+                nsym = 1 + (8 * ln + 4) // 5
+                # positions: the version symbol, the first / last program symbol, random ones
+                spots = [r.randrange(1, nsym), 0, 1, nsym - 1] + [r.randrange(nsym) for _ in range(12)]
+                for attempt, p in enumerate(spots):
+                    if found >= per + 1:
+                        break
+                    t = seg_forgery(hrp, ver, ctx.rbytes(ln), p, cs[attempt % len(cs)], reading)
+                    if t is None:
+                        continue
+                    found += 1
+                    b = t.encode("latin-1")
+                    ctx.label("lenient/bech32/reading/" + rname)
+                    ctx.label("lenient/bech32/position/" + ("version" if p == 0 else "program"))
+                    for op in seg_ops:
+                        yield ("corr", op, [b])
+                    yield ("prop", "foreign_rejected", [b])
+                    yield ("prop", "decode_encode", [b])
+                    yield ("prop", "parsers_only_addresses", [b])
+                if not found:
+                    ctx.label("lenient/bech32/no-text-built")
+            # a VALID address with look-alike / upper-case characters anywhere (checksum part included), and the
+            # upper-case forms of the whole text, of the data part, of the human-readable part
+            a = ref_segwit(hrp, ver, ctx.rbytes(ln))
+            start = len(hrp) + 1
+            alts = [a.upper(), a[:start] + a[start:].upper(), a[:start].upper() + a[start:], a[:start - 1].upper() + a[start - 1:]]
+            for rname, reading, chars in READ32[5:7]:
+                for c in chars:
+                    v = reading(c)
+                    where = [i for i in range(start, len(a)) if B32.index(a[i]) == v]
+                    if where:
+                        i = r.choice([where[0], where[-1], r.choice(where)])
+                        alts.append(a[:i] + c + a[i + 1:])
+                        alts.append(a[:start] + a[start:].replace(B32[v], c))
+            for t in r.sample(alts, min(len(alts), 4 + 2 * per)):
+                b = t.encode("latin-1")
+                ctx.label("lenient/bech32/case-and-look-alike")
+                for op in seg_ops:
+                    yield ("corr", op, [b])
+                yield ("prop", "foreign_rejected", [b])
+    # ---- a foreign character mapped to ANY character of the alphabet: the four characters each alphabet leaves out
+    #      on purpose, standing in for every alphabet character once, in a valid address
+    for c in "0OIl":
+        for x in B58:
+            for _ in range(60):
+                a = ref_address(r.randrange(2), ctx.rbytes(20), r.randrange(4))
+                where = [i for i in range(1, len(a)) if a[i] == x]
+                if where:
+                    ctx.label("lenient/base58/stands-for-any-character")
+                    i = r.choice(where)
+                    yield ("prop", "foreign_rejected", [(a[:i] + c + a[i + 1:]).encode()])
+                    break
+    for c in "1bio":
+        for x in B32:
+            for _ in range(60):
+                t, net = r.choice([2, 3, 4]), r.choice([0, 1, 3])
+                a = ref_address(t, ctx.rbytes(20 if t == 2 else 32), net)
+                where = [i for i in range(len(HRP[net]) + 1, len(a)) if a[i] == x]
+                if where:
+                    ctx.label("lenient/bech32/stands-for-any-character")
+                    i = r.choice(where)
+                    yield ("prop", "foreign_rejected", [(a[:i] + c + a[i + 1:]).encode()])
+                    break
+    # ---- bc32 (same alphabet, same lookup, no human-readable part)
+    for rname, reading, chars in READ32:
+        for _ in range(3 * per):
+            data = ctx.rbytes(r.choice([1, 2, 5, 20, 32, r.randrange(1, 60)]))
+            t = bc32_forgery(data, r.randrange(200), r.choice(chars), reading)
+            if t is not None:
+                ctx.label("lenient/bc32/reading/" + rname)
+                yield ("prop", "bc32_foreign", [data, t.encode("latin-1")])
+
+
 def generate(ctx):
     r = ctx.rng
     # ---------------- base58
@@ -1725,3 +2119,5 @@ def generate(ctx):
     yield from entry_point_cases(ctx)
     # ---------------- histories (state kept across calls on one object / in the module)
     yield from histories(ctx)
+    # ---------------- characters outside the alphabet, compensated under every lenient reading of them
+    yield from lenient_digit_cases(ctx)
